@@ -120,6 +120,9 @@ impl ParquetTable {
             max_i64: Option<i64>,
             null_count: Option<u64>,
             has_int_stats: bool,
+            /// Some chunk holding rows contributed no min/max (written
+            /// without statistics): the folded bounds would not cover it.
+            bounds_unknown: bool,
         }
 
         let mut total_rows: usize = 0;
@@ -152,11 +155,17 @@ impl ParquetTable {
                         max_i64: None,
                         null_count: Some(0),
                         has_int_stats: false,
+                        bounds_unknown: false,
                     });
 
                     let Some(stats) = col_chunk.statistics() else {
-                        // A chunk without stats poisons null_count accuracy.
+                        // A chunk without stats poisons null_count accuracy —
+                        // and, when it holds rows, the min/max bounds too:
+                        // its values can lie anywhere.
                         acc.null_count = None;
+                        if rg.num_rows() > 0 {
+                            acc.bounds_unknown = true;
+                        }
                         continue;
                     };
 
@@ -181,6 +190,16 @@ impl ParquetTable {
                         acc.has_int_stats = true;
                         acc.min_i64 = Some(acc.min_i64.map_or(min, |m| m.min(min)));
                         acc.max_i64 = Some(acc.max_i64.map_or(max, |m| m.max(max)));
+                    } else if matches!(
+                        stats,
+                        ParquetStatistics::Int64(_) | ParquetStatistics::Int32(_)
+                    ) && stats
+                        .null_count_opt()
+                        .map_or(true, |n| n < rg.num_rows() as u64)
+                    {
+                        // An integer chunk with non-null values but no
+                        // min/max: same as no statistics for the bounds.
+                        acc.bounds_unknown = true;
                     }
                 }
             }
@@ -249,7 +268,13 @@ impl ParquetTable {
 
         let column_stats = cols
             .into_iter()
-            .map(|(name, acc)| {
+            .map(|(name, mut acc)| {
+                if acc.bounds_unknown {
+                    // Bounds folded from only SOME chunks are not bounds.
+                    acc.min_i64 = None;
+                    acc.max_i64 = None;
+                    acc.has_int_stats = false;
+                }
                 let non_null = acc
                     .null_count
                     .map(|n| (total_rows as u64).saturating_sub(n))
